@@ -455,6 +455,9 @@ def apply_edit(d, st, op, content_counter):
         d.stamp(op["file"])
     elif k == "old":        # counter-history of the update-if-newer hypothesis: new content, OLD timestamp
         d.write_src(op["file"], "%s v%d\n" % (op["file"], content_counter), n=CLOCK0 - 5)
+    elif k == "same":       # give an input exactly the mtime of a consumer's output (equal timestamps)
+        st = os.stat(d.p(op["as"]))
+        os.utime(d.p(op["file"]), ns=(st.st_mtime_ns, st.st_mtime_ns))
     elif k == "rm":
         try:
             os.unlink(d.p(op["file"]))
@@ -513,8 +516,8 @@ def run_scenario(args):
         must, may = set(), set()
         e = op["via"] if k == "fail" else op
         ek = e["op"]
-        if ek in ("edit", "touch", "old"):
-            must = G.consumers(e["file"]) if ek != "old" else set()
+        if ek in ("edit", "touch", "old", "same"):
+            must = G.consumers(e["file"]) if ek not in ("old", "same") else set()
             may = G.affected(e["file"])
         elif ek == "edit2":
             for f in e["files"]:
@@ -565,10 +568,11 @@ def run_scenario(args):
                 fail("command %s fails but the build exited 0" % failing, "exit-status", i)
             if failing not in ran:
                 fail("failing command %s was not attempted (retried) in this build" % failing, "not-retried", i)
-            bad = sorted(ran & blocked)
-            if bad:
-                fail("dependents %s of the failing command %s ran" % (bad, failing), "dependent-ran", i,
-                     through_phony=any(G.cmds[x]["phony"] for x in G.cmds), k=cfg["k"])
+            normal = G.down(failing) - {failing}
+            for edge, bad in (("normal", sorted(ran & normal)), ("order-only", sorted((ran & blocked) - normal))):
+                if bad:
+                    fail("dependents %s of the failing command %s ran (reached through %s edges)" % (bad, failing, edge),
+                         "dependent-ran", i, edge=edge, keep_going=cfg["k"] != 1)
         else:
             if rc != 0:
                 fail("build failed (exit %d) although no command fails: %s" % (rc, out[-300:]), "spurious-failure", i)
@@ -729,6 +733,9 @@ def directed(cfgs):
             {"op": "fail", "cmd": "c1", "via": {"op": "edit", "file": "h0.h"}}, {"op": "null"}, {"op": "repair", "cmd": "c1"},
             {"op": "fail", "cmd": "c0", "via": {"op": "rm", "file": "o0"}}, {"op": "repair", "cmd": "c0"},
             {"op": "fail", "cmd": "c2", "via": {"op": "salt", "cmd": "c2"}}, {"op": "repair", "cmd": "c2"}, {"op": "edit", "file": "s1"}]
+    # equal timestamps (input mtime == output mtime): up to date without --strict, like Ninja (differential only)
+    out.append({"sources": ["s0"], "headers": ["h0.h"], "cmds": [cmd("c0", ["o0"], ["s0"]), cmd("c1", ["o1"], ["o0"])], "targets": [],
+                "cfg": dict(cfgs[0]), "steps": [{"op": "init"}, {"op": "same", "file": "s0", "as": "o0"}, {"op": "null"}]})
     for cfg in cfgs:
         out.append({"sources": ["s0", "s1", "so"], "headers": ["h0.h"], "cmds": base_cmds(), "targets": [], "cfg": dict(cfg), "steps": list(hist)})
     return out
@@ -750,7 +757,8 @@ class Check(PropertyCheck):
         "C18_unchanged_stays_valid", "C18_failure_values_never_valid", "C18_command_line_change_reruns",
         "C18_order_only_never_compared", "C18_failed_input_skips", "C18_failed_input_skips_full_false",
         "C18_restat_force", "C18_phony_never_executes", "C18_deps_never_shortcut",
-        "C18_shortcut_outputs_not_older", "C18_update_if_newer_sound", "C18_update_if_newer_counter_history")]
+        "C18_shortcut_outputs_not_older", "C18_equal_mtime", "C18_update_if_newer_sound",
+        "C18_update_if_newer_counter_history")]
     extractors = ["x_ninjabuild"]
     harnesses = []
     level = "partial"
@@ -782,7 +790,7 @@ class Check(PropertyCheck):
             cfgs = [{"db": True, "jobs": 1, "k": 1}, {"db": True, "jobs": 4, "k": 1}, {"db": False, "jobs": 1, "k": 1},
                     {"db": False, "jobs": 4, "k": 1}, {"db": True, "jobs": 4, "k": 0}]
             scens = directed(cfgs)
-            n = 700 if ctx.thorough else 110
+            n = 1400 if ctx.thorough else 110
             for i in range(n):
                 scens.append(gen_scenario(ctx.rng, 0, ctx.thorough))
         for i, s in enumerate(scens):
